@@ -61,9 +61,11 @@ func avg(xs []int) float64 {
 	return float64(s) / float64(len(xs))
 }
 
-// settle: wait until the number of goroutines has not changed for 300 ms (at most 3 s): goroutines of
-// closed udp proxies sleep up to 1.5 s before they notice
+// settle: the goroutines of closed udp proxies sleep up to 1.5 s before they notice (500 ms before the
+// first work connection request, 1 s after a failed one): wait that long, then until the number of
+// goroutines has not changed for 300 ms (at most 3 s more)
 func settle() (int, int) {
+	time.Sleep(1600 * time.Millisecond)
 	last, since := runtime.NumGoroutine(), time.Now()
 	deadline := time.Now().Add(3 * time.Second)
 	for time.Now().Before(deadline) && time.Since(since) < 300*time.Millisecond {
